@@ -424,6 +424,9 @@ class EventLoop(object):
         except Unsupported:
             raise
         except (KeyError, AttributeError, IndexError, TypeError, ValueError) as e:
+            import os as _os
+            if _os.environ.get('SEDVC_DEBUG'):
+                raise
             raise Unsupported("contract set-up out of date: the contract of loop %d of %s cannot interpret the loop body (%s: %s)"
                               % (ordinal, fr.qualname, type(e).__name__, e))
 
@@ -464,7 +467,12 @@ class EventLoop(object):
             # first iteration, from the real entry state (the havoc below describes the state left by an iteration)
             first = st.fork()
             fc = Ctx(interp, first, fr)
-            interp.assign(node.target, first.box(self.item(fc, it)), first, fr)
+            from .interp import SymRange
+            v0 = self.item(fc, it)
+            if isinstance(it, SymRange):
+                # the first iteration of a range handles its first element
+                first.assume_pc(compare('==', v0, it.start))
+            interp.assign(node.target, first.box(v0), first, fr)
             first_entry = first.fork()
             paths0 = [(s, s.events[pre_events:], s.status) for s in interp.exec_block(node.body, first, fr)]
             for s, nm, f in self._run_check(Ctx(interp, first_entry, fr), paths0, fr, ordinal):
